@@ -3,7 +3,7 @@
    stand-ins used when the model is executed next to the implementation:
    allocations up to 2^50 bytes succeed, larger ones fail; qsort = insertion
    sort (any sorted permutation of integers is that one, VectorProofs). *)
-From Robsd Require Export Ks.VectorSpec Ks.BufferSpec Ks.GetlineDefs Ks.MapSpec Ks.MapMultiSpec Ks.MapAllocDefs.
+From Robsd Require Export Ks.VectorSpec Ks.BufferSpec Ks.GetlineDefs Ks.GetlineSpec Ks.MapSpec Ks.MapMultiSpec Ks.MapKeySpec Ks.MapAllocDefs.
 From RobsdGen Require Gen_KsConst.
 Local Open Scope Z_scope.
 
@@ -37,6 +37,9 @@ Definition grun_instf (fails : list Z) (init_size : Z) (ops : list gop) : option
   | None => None
   | Some b => Some (b_siz b, snd (grun Gen_KsConst.buffer_init_cap (alloc_ok_f fails) (mkgbuf b 0) ops))
   end.
+
+(* the oracle for buffer operations interleaved with single getline calls, from the empty buffer and a zeroed iterator *)
+Definition spec_ok_gbuf_inst (tr : list (gop * gout)) : bool := spec_ok_gbuf [] 0 tr.
 
 Definition spec_ok_vec_faulty_inst (stride hdr : Z) (tr : list (vop * vout)) : bool :=
   spec_ok_vec_faulty stride hdr [] tr.
